@@ -14,7 +14,7 @@ def gen_cfg(profile, lo=1, hi=1, seedset=(), devs=(), year=False, invariants=("E
 
 
 def generate(ctx, profile, lo=1, hi=1, seedset=(), devs=(), label=None, year=False, invariants=("Emit",)):
-    r = vlib.tlc(ctx, "MtailGen", gen_cfg(profile, lo, hi, seedset, devs, year, invariants),
+    r = vlib.tlc(ctx, "MtailGen", gen_cfg(profile, lo, hi, seedset, devs, year, invariants), workers=4,
                  label=label or ("MtailGen-%s%s" % (profile, "-dev" if devs else "")), timeout=2400, heap="12g")
     return r.cases
 
